@@ -130,6 +130,19 @@ def check(run):
                         run.findings.append(Finding(ob2.name, "run", p, {"language": "c++", "inputs": {"shape": list(shp), "seed": run.seed + 31 * t, "cse": cse, "transcendental": t % 4 == 3, "share_reading": True, "rational": t % 3 == 1, "nonsmooth": t % 5 == 2}}, True))
             if len(samples) < 2:
                 samples.append({"program": sc.describe(), "generated_source_excerpt": source[:1200]})
+    # a definition whose symbols are spelled like CSE temporaries (_t0 is a declared control no expression mentions): must compile and be right
+    sc0 = scenarios.renamed(scenarios.Scenario(2, 1, 1, [2], seed=run.seed + 3), "_t", run.seed, unused_control=True)
+    for cse in (True, False):
+        programs += 1
+        probs, header, source = G.validate_program(run, sc0, f"temporary_like_names.cse_{'on' if cse else 'off'}", cse=cse, prefix="C02")
+        run.native_runs += 1
+        okc, err = cppgen.syntax_check(header, source)
+        ob = run.prove(f"C02.cxx.temporary_like_names.cse_{'on' if cse else 'off'}.compiles_against_standin", [], z3.BoolVal(okc), function=G.FN)
+        payload = {"language": "c++", "inputs": {"shape": [2, 1, 1, [2]], "seed": run.seed + 3, "cse": cse, "rename": "_t"}, "model_definition": sc0.describe()}
+        if not okc:
+            run.findings.append(Finding(ob.name, "compile", f"symbols named _t0, _t1, ... (cse={cse}): generated header/source do not compile: {err[-300:]}", payload, True))
+        for ob2, p in probs[:1]:
+            run.findings.append(Finding(ob2.name, "names", f"symbols named _t0, _t1, ... (cse={cse}): {p}", payload, True))
     # plain (non-EKF) Model::model path
     for t, (sc, shp) in enumerate(G.corpus(run.seed + 5, 2)):
         probs, header, source = G.validate_program(run, sc, f"model{t}", cse=True, ekf=False, prefix="C02")
@@ -154,6 +167,13 @@ def replay_file(payload):
         print("replay C02: generator-level obligation without a concrete program (see the obligation's note)")
         return True
     shp = inp["shape"]
+    if inp.get("rename"):
+        sc = scenarios.renamed(scenarios.Scenario(shp[0], shp[1], shp[2], shp[3], seed=inp["seed"]), inp["rename"], inp["seed"] - 3, unused_control=True)
+        run = driver.PropertyRun("C02", "quick", 0)
+        probs, h, s2 = G.validate_program(run, sc, "replay", cse=inp.get("cse", True))
+        okc, err = cppgen.syntax_check(h, s2)
+        print("replay C02 (temporary-like names):", ([p for _, p in probs[:3]] + ([] if okc else [err[-200:]])) or "compiles and computes the symbolic expressions")
+        return okc and not probs
     sc = scenarios.Scenario(shp[0], shp[1], shp[2], shp[3], seed=inp["seed"], transcendental=inp.get("transcendental", False), share_reading=inp.get("share_reading", False), rational=inp.get("rational", False), nonsmooth=inp.get("nonsmooth", False))
     run = driver.PropertyRun("C02", "quick", 0)
     probs, h, s = G.validate_program(run, sc, "replay", cse=inp.get("cse", True), ekf=inp.get("ekf", True))
